@@ -11,26 +11,27 @@ Arguments Z.leb : simpl never.
 Arguments Z.eqb : simpl never.
 Arguments Z.max : simpl never.
 
-Definition opt_flow_good (o : option sem) : Prop :=
-  match o with None => True | Some s => Good s /\ s_flow (m_sizing s) = true end.
+Definition opt_flow_goodN (n : Z) (o : option sem) : Prop :=
+  match o with None => True | Some s => GoodN n s /\ s_flow (m_sizing s) = true end.
+Notation opt_flow_good := (opt_flow_goodN 1).
 
 Definition opt_rows (o : option sem) (c : Z) (f : bool) : res Z :=
   match o with Some s => m_rows s c f | None => Ok 0 end.
 
-Lemma opt_rows_ok o c f :
-  opt_flow_good o -> 1 <= c ->
+Lemma opt_rows_ok n o c f :
+  0 <= n -> opt_flow_goodN n o -> 1 <= c ->
   match opt_rows o c f with
   | Ok h => 0 <= h /\ (o = None -> h = 0)
   | Err e => soft e end.
 Proof.
-  intros H Hc. destruct o as [s|]; cbn.
+  intros Hn0 H Hc. destruct o as [s|]; cbn.
   - destruct H as [G Hf]. pose proof (g_rows s G c f Hf Hc) as R.
     destruct (m_rows s c f); [|exact R]. split; [lia|discriminate].
   - split; [lia|auto].
 Qed.
 
-Lemma frame_tb_spec hd ft fpart c r f :
-  opt_flow_good hd -> opt_flow_good ft -> 1 <= c -> 1 <= r ->
+Lemma frame_tb_spec n hd ft fpart c r f :
+  0 <= n -> opt_flow_goodN n hd -> opt_flow_goodN n ft -> 1 <= c -> 1 <= r ->
   match frame_top_bottom hd ft fpart c r f with
   | Ok (ht, ftm, hrows, frows) =>
       0 <= ht <= hrows /\ 0 <= ftm <= frows /\ ht + ftm <= r
@@ -40,9 +41,9 @@ Lemma frame_tb_spec hd ft fpart c r f :
   | Err e => soft e
   end.
 Proof.
-  intros Hh Hf Hc Hr. unfold frame_top_bottom.
-  pose proof (opt_rows_ok hd c ((fpart =? 1) && f) Hh Hc) as RH.
-  pose proof (opt_rows_ok ft c ((fpart =? 2) && f) Hf Hc) as RF.
+  intros Hn0 Hh Hf Hc Hr. unfold frame_top_bottom.
+  pose proof (opt_rows_ok n hd c ((fpart =? 1) && f) Hn0 Hh Hc) as RH.
+  pose proof (opt_rows_ok n ft c ((fpart =? 2) && f) Hn0 Hf Hc) as RF.
   unfold opt_rows in *.
   change (match hd with Some h => m_rows h c ((fpart =? 1) && f) | None => Ok 0 end) with (opt_rows hd c ((fpart =? 1) && f)) in *.
   change (match ft with Some x => m_rows x c ((fpart =? 2) && f) | None => Ok 0 end) with (opt_rows ft c ((fpart =? 2) && f)) in *.
@@ -53,8 +54,8 @@ Proof.
     cbn; repeat split; auto; lia.
 Qed.
 
-Lemma frame_part_spec p valign trimv rows c fo :
-  opt_flow_good p -> 1 <= c -> 0 <= trimv <= rows -> 0 <= valign ->
+Lemma frame_part_spec n p valign trimv rows c fo :
+  n <= 1 -> opt_flow_goodN n p -> 1 <= c -> 0 <= trimv <= rows -> 0 <= valign ->
   opt_rows p c fo = Ok rows -> (p = None -> rows = 0) ->
   match frame_part p valign trimv rows c fo with
   | Ok None => trimv = 0
@@ -62,11 +63,11 @@ Lemma frame_part_spec p valign trimv rows c fo :
   | Err e => soft e
   end.
 Proof.
-  intros Hp Hc Ht Hv Hrows Hnone. unfold frame_part. destruct p as [s|].
+  intros Hn1 Hp Hc Ht Hv Hrows Hnone. unfold frame_part. destruct p as [s|].
   2:{ specialize (Hnone eq_refl). lia. }
   destruct Hp as [G Hf]. cbn in Hrows.
   destruct ((negb (trimv =? 0)) && (trimv <? rows)) eqn:E1.
-  - assert (GF : Good (filler_sem s valign HPack None 0 0)).
+  - assert (GF : GoodN n (filler_sem s valign HPack None 0 0)).
     { apply filler_good; auto; lia. }
     pose proof (g_box _ GF c trimv fo eq_refl Hc ltac:(lia)) as B.
     destruct (m_render (filler_sem s valign HPack None 0 0) (SBox c trimv) fo) as [d|e]; cbn; [|exact B].
@@ -78,19 +79,19 @@ Proof.
     replace (cr d =? cr d) with true by lia. cbn. repeat split; auto; lia.
 Qed.
 
-Lemma frame_good body hd ft fpart :
-  Good body -> s_box (m_sizing body) = true -> opt_flow_good hd -> opt_flow_good ft ->
-  Good (frame_sem body hd ft fpart).
+Lemma frame_good n m body hd ft fpart :
+  0 <= n <= 1 -> GoodN n body -> s_box (m_sizing body) = true -> opt_flow_goodN n hd -> opt_flow_goodN n ft ->
+  GoodN m (frame_sem body hd ft fpart).
 Proof.
-  intros G Hb Hh Hf. unfold frame_sem. apply mk_node_good; cbn [s_flow s_box].
+  intros Hn G Hb Hh Hf. unfold frame_sem. apply mk_node_good; cbn [s_flow s_box].
   - intros; discriminate.
   - intros; discriminate.
   - intros c r f _ Hc Hr. unfold frame_render.
-    pose proof (frame_tb_spec hd ft fpart c r f Hh Hf Hc Hr) as T.
+    pose proof (frame_tb_spec n hd ft fpart c r f ltac:(lia) Hh Hf Hc Hr) as T.
     destruct (frame_top_bottom hd ft fpart c r f) as [[[[ht ftm] hrows] frows]|e]; cbn; [|exact T].
     destruct T as [T1 [T2 [T3 [T4 [T5 [T6 T7]]]]]].
     rewrite (andb_comm (fpart =? 1) f) in T4. rewrite (andb_comm (fpart =? 2) f) in T5.
-    pose proof (frame_part_spec hd 0 ht hrows c (f && (fpart =? 1)) Hh Hc T1 ltac:(lia) T4 T6) as PH.
+    pose proof (frame_part_spec n hd 0 ht hrows c (f && (fpart =? 1)) ltac:(lia) Hh Hc T1 ltac:(lia) T4 T6) as PH.
     destruct (frame_part hd 0 ht hrows c (f && (fpart =? 1))) as [head|e]; cbn; [|exact PH].
     assert (PB : match (if ftm + ht <? r
                         then (let* cv := m_render body (SBox c (r - ftm - ht)) (f && (fpart =? 0)) in Ok (Some cv))
@@ -105,7 +106,7 @@ Proof.
     destruct (if ftm + ht <? r
               then (let* cv := m_render body (SBox c (r - ftm - ht)) (f && (fpart =? 0)) in Ok (Some cv))
               else Ok None) as [bod|e]; cbn; [|exact PB].
-    pose proof (frame_part_spec ft 100 ftm frows c (f && (fpart =? 2)) Hf Hc T2 ltac:(lia) T5 T7) as PF.
+    pose proof (frame_part_spec n ft 100 ftm frows c (f && (fpart =? 2)) ltac:(lia) Hf Hc T2 ltac:(lia) T5 T7) as PF.
     destruct (frame_part ft 100 ftm frows c (f && (fpart =? 2))) as [foot|e]; cbn; [|exact PF].
     set (l := (match head with Some c0 => [c0] | None => [] end)
                 ++ (match bod with Some c0 => [c0] | None => [] end)
